@@ -1,78 +1,12 @@
 import Py4hwV.Proofs.C02Stmt
 /-
-  C02, combinational bodies (`propagate()` -> `always @(*)`).
-  Python's `put` takes effect at once, the emitted `<=` is queued and applied after the block.  In the fragment where no wire
-  that the body puts is also read by it (complement = finding C02-read-after-put) the two are indistinguishable: the Python
-  execution is replayed on a SHADOW state whose wires are frozen at their values before the call and whose puts are queued
-  (`p2p`: put -> prepare), and the sequential bisimulation (`cycle_soundB`) applies to the shadow.
+  C02, combinational bodies (`propagate()` -> `always @(*)`) and the mode-independent history theorem.
+  Since /repo b298f20 `put` is emitted as a BLOCKING assignment: it takes effect at once on both sides (Wire.put / `=`), so a body
+  may read back a wire it has just put and `put` may also be used inside clock(); the statement theorem (`trS_sound_aux`) handles
+  it directly for both modes and the former shadow-state argument (put replayed as queued update) is no longer needed.
 -/
 namespace C02
 open Tp
-
-def p2p : Stmt → Stmt
-  | .skip => .skip
-  | .seq a b => .seq (p2p a) (p2p b)
-  | .setLoc n e => .setLoc n e
-  | .setAttr n e => .setAttr n e
-  | .put w e => .prep w e
-  | .prep w e => .prep w e
-  | .ife cnd t e => .ife cnd (p2p t) (p2p e)
-  | .mtch subj ch => .mtch subj (p2p ch)
-  | .arm v g body rest => .arm v g (p2p body) (p2p rest)
-  | .dflt body => .dflt (p2p body)
-
-/-- `put` and `prepare` are the same Verilog text (generated tables `asyncAssign` = `syncAssign`) -/
-theorem trS_p2p (c : ClassD) : ∀ stmt, trS c (p2p stmt) = trS c stmt := by
-  intro stmt
-  induction stmt with
-  | skip => rfl
-  | seq a b iha ihb => simp [p2p, trS, iha, ihb]
-  | setLoc n e => rfl
-  | setAttr n e => rfl
-  | put w e => simp [p2p, trS, assignS, blocking, Gen.TranspileOps.asyncAssign, Gen.TranspileOps.syncAssign]
-  | prep w e => rfl
-  | ife cnd t e iht ihe => simp [p2p, trS, iht, ihe]
-  | mtch subj ch ih => simp [p2p, trS, ih]
-  | arm v g body rest ihb ihr => cases g <;> simp [p2p, trS, ihb, ihr]
-  | dflt body ih => simp [p2p, trS, ih]
-
-theorem isSkipS_p2p (b : Stmt) : isSkipS (p2p b) = isSkipS b := by cases b <;> rfl
-
-theorem laterDistinct_p2p (k : Int) : ∀ stmt, laterDistinct k (p2p stmt) = laterDistinct k stmt := by
-  intro stmt
-  induction stmt with
-  | arm v g body rest _ ihr => simp only [p2p, laterDistinct, ihr]
-  | dflt b _ => simp only [p2p, laterDistinct, isSkipS_p2p]
-  | _ => rfl
-
-theorem guardOK_p2p (c : ClassD) (v : Expr) (g : Option Expr) (rest : Stmt) : guardOK c v g (p2p rest) = guardOK c v g rest := by
-  cases g with
-  | none => rfl
-  | some ge => cases v <;> simp [guardOK, laterDistinct_p2p]
-
-theorem okSg_p2p (c : ClassD) : ∀ stmt, okSg false c stmt = true → okSg true c (p2p stmt) = true := by
-  intro stmt
-  induction stmt with
-  | skip => intro _; rfl
-  | seq a b iha ihb =>
-    intro h; rw [okSg] at h; simp only [Bool.and_eq_true] at h
-    rw [p2p, okSg, iha h.1, ihb h.2]; rfl
-  | setLoc n e => intro h; rw [okSg] at h; rw [p2p, okSg]; exact h
-  | setAttr n e => intro h; rw [okSg] at h; simp at h
-  | put w e =>
-    intro h; rw [okSg] at h; simp only [Bool.and_eq_true, Bool.not_false] at h
-    rw [p2p, okSg]; simp [h.1.1.1, h.1.2, h.2]
-  | prep w e => intro h; rw [okSg] at h; simp at h
-  | ife cnd t e iht ihe =>
-    intro h; rw [okSg] at h; simp only [Bool.and_eq_true] at h
-    rw [p2p, okSg, h.1.1, iht h.1.2, ihe h.2]; rfl
-  | mtch subj ch ih =>
-    intro h; rw [okSg] at h; simp only [Bool.and_eq_true] at h
-    rw [p2p, okSg, h.1.1, h.1.2, ih h.2]; rfl
-  | arm v g body rest ihb ihr =>
-    intro h; rw [okSg] at h; simp only [Bool.and_eq_true] at h
-    rw [p2p, okSg, guardOK_p2p, h.1.1.1.1, h.1.1.1.2, h.1.1.2, ihb h.1.2, ihr h.2]; rfl
-  | dflt body ih => intro h; rw [okSg] at h; rw [p2p, okSg]; exact ih h
 
 /-- evaluation only looks at the wires the expression reads -/
 theorem evalD_congr (ρ ρ' : Env) (hl : ρ.loc = ρ'.loc) (ha : ρ.att = ρ'.att) (hp : ρ.par = ρ'.par) :
@@ -102,220 +36,39 @@ theorem evalD_congr (ρ ρ' : Env) (hl : ρ.loc = ρ'.loc) (ha : ρ.att = ρ'.at
     simp only [evalD, ihc (fun n hn => h n (by simp [getsE, hn])), iha (fun n hn => h n (by simp [getsE, hn])),
       ihb (fun n hn => h n (by simp [getsE, hn]))]
 
-def applyL (f : String → Option Int) (L : List (String × Int)) : String → Option Int :=
-  L.foldl (fun f (p : String × Int) => upd f p.1 p.2) f
-
-theorem applyL_notin (n : String) : ∀ (L : List (String × Int)) (f : String → Option Int), (∀ p, p ∈ L → p.1 ≠ n) → applyL f L n = f n := by
-  intro L
-  induction L with
-  | nil => intro f _; rfl
-  | cons hd tl ih =>
-    intro f h
-    simp only [applyL, List.foldl] at *
-    rw [ih _ (fun p hp => h p (by simp [hp]))]
-    have : hd.1 ≠ n := h hd (by simp)
-    simp [upd, Ne.symm this]
-
-theorem applyL_snoc (f : String → Option Int) (L : List (String × Int)) (w : String) (v : Int) :
-    applyL f (L ++ [(w, v)]) = upd (applyL f L) w v := by
-  simp [applyL, List.foldl_append]
-
-/-- the shadow of a Python state inside a `propagate()` call: wires frozen at `w0`, puts queued -/
-structure Sh (w0 : String → Option Int) (P : List String) (s sF : St) : Prop where
-  loc : sF.loc = s.loc
-  att : sF.att = s.att
-  wire0 : sF.wire = w0
-  cur : s.wire = applyL w0 sF.prep
-  inP : ∀ p, p ∈ sF.prep → p.1 ∈ P
-  np : s.prep = []
-
-theorem sh_eval {c : ClassD} {w0 : String → Option Int} {P : List String} {s sF : St} (h : Sh w0 P s sF) (e : Expr)
-    (hg : ∀ n, n ∈ getsE e → n ∉ P) : evalD (s.env c) e = evalD (sF.env c) e := by
-  apply evalD_congr
-  · simp [St.env, h.loc]
-  · simp [St.env, h.att]
-  · rfl
-  · intro n hn
-    show s.wire n = sF.wire n
-    rw [h.cur, h.wire0]
-    apply applyL_notin
-    intro p hp hpn
-    exact hg n hn (hpn ▸ h.inP p hp)
-
-/-- Python side: executing a `propagate()` body with immediate puts = executing its `p2p` image on the shadow -/
-theorem p2p_exec (c : ClassD) (w0 : String → Option Int) (P : List String) :
-    ∀ (stmt : Stmt) (sv : Option Int) (s s' sF : St), okSg false c stmt = true →
-      (∀ n, n ∈ getsS stmt → n ∉ P) → (∀ n, n ∈ putsS stmt → n ∈ P) →
-      execD c sv stmt s = some s' → Sh w0 P s sF →
-      ∃ sF', execD c sv (p2p stmt) sF = some sF' ∧ Sh w0 P s' sF' := by
-  intro stmt
-  induction stmt with
-  | skip =>
-    intro sv s s' sF _ _ _ he hs
-    simp only [execD, Option.some.injEq] at he; subst he
-    exact ⟨sF, rfl, hs⟩
-  | seq a b iha ihb =>
-    intro sv s s' sF hok hg hp he hs
-    rw [okSg] at hok; simp only [Bool.and_eq_true] at hok
-    simp only [execD] at he
-    split at he
-    · rename_i s1 h1
-      obtain ⟨sF1, e1, hs1⟩ := iha sv s s1 sF hok.1 (fun n hn => hg n (by simp [getsS, hn])) (fun n hn => hp n (by simp [putsS, hn])) h1 hs
-      obtain ⟨sF2, e2, hs2⟩ := ihb sv s1 s' sF1 hok.2 (fun n hn => hg n (by simp [getsS, hn])) (fun n hn => hp n (by simp [putsS, hn])) he hs1
-      exact ⟨sF2, by simp [p2p, execD, e1, e2], hs2⟩
-    · simp at he
-  | setLoc n e =>
-    intro sv s s' sF _ hg _ he hs
-    simp only [execD] at he
-    split at he
-    · rename_i v hv
-      simp only [Option.some.injEq] at he; subst he
-      rw [sh_eval hs e (fun n hn => hg n (by simpa [getsS] using hn))] at hv
-      exact ⟨{ sF with loc := upd sF.loc n v }, by simp [p2p, execD, hv],
-        ⟨by simp [hs.loc], hs.att, hs.wire0, hs.cur, hs.inP, hs.np⟩⟩
-    · simp at he
-  | setAttr n e => intro sv s s' sF hok; rw [okSg] at hok; simp at hok
-  | put w e =>
-    intro sv s s' sF _ hg hp he hs
-    simp only [execD] at he
-    split at he
-    · rename_i v p hv hpw
-      simp only [Option.some.injEq] at he; subst he
-      rw [sh_eval hs e (fun n hn => hg n (by simpa [getsS] using hn))] at hv
-      refine ⟨{ sF with prep := sF.prep ++ [(w, maskW p.width v)] }, by simp [p2p, execD, hv, hpw], ⟨hs.loc, hs.att, hs.wire0, ?_, ?_, hs.np⟩⟩
-      · show upd s.wire w (maskW p.width v) = applyL w0 (sF.prep ++ [(w, maskW p.width v)])
-        rw [applyL_snoc, hs.cur]
-      · intro q hq
-        simp only [List.mem_append, List.mem_singleton] at hq
-        rcases hq with hq | rfl
-        · exact hs.inP q hq
-        · exact hp w (by simp [putsS])
-    · simp at he
-  | prep w e => intro sv s s' sF hok; rw [okSg] at hok; simp at hok
-  | ife cnd t e iht ihe =>
-    intro sv s s' sF hok hg hp he hs
-    rw [okSg] at hok; simp only [Bool.and_eq_true] at hok
-    simp only [execD] at he
-    split at he
-    · rename_i v hv
-      rw [sh_eval hs cnd (fun n hn => hg n (by simp [getsS, hn]))] at hv
-      split at he
-      · rename_i htv
-        obtain ⟨sF1, e1, hs1⟩ := iht sv s s' sF hok.1.2 (fun n hn => hg n (by simp [getsS, hn])) (fun n hn => hp n (by simp [putsS, hn])) he hs
-        exact ⟨sF1, by simp [p2p, execD, hv, htv, e1], hs1⟩
-      · rename_i htv
-        obtain ⟨sF1, e1, hs1⟩ := ihe sv s s' sF hok.2 (fun n hn => hg n (by simp [getsS, hn])) (fun n hn => hp n (by simp [putsS, hn])) he hs
-        exact ⟨sF1, by simp [p2p, execD, hv, htv, e1], hs1⟩
-    · simp at he
-  | mtch subj ch ih =>
-    intro sv s s' sF hok hg hp he hs
-    rw [okSg] at hok; simp only [Bool.and_eq_true] at hok
-    simp only [execD] at he
-    split at he
-    · rename_i v hv
-      rw [sh_eval hs subj (fun n hn => hg n (by simp [getsS, hn]))] at hv
-      obtain ⟨sF1, e1, hs1⟩ := ih (some v) s s' sF hok.2 (fun n hn => hg n (by simp [getsS, hn])) (fun n hn => hp n (by simpa [putsS] using hn)) he hs
-      exact ⟨sF1, by simp [p2p, execD, hv, e1], hs1⟩
-    · simp at he
-  | arm v g body rest ihb ihr =>
-    intro sv s s' sF hok hg hp he hs
-    rw [okSg] at hok; simp only [Bool.and_eq_true] at hok
-    obtain ⟨⟨⟨⟨_, _⟩, _⟩, hokb⟩, hokr⟩ := hok
-    cases sv with
-    | none => simp [execD] at he
-    | some x =>
-      simp only [execD] at he
-      split at he
-      · simp at he
-      · rename_i pv hpv
-        rw [sh_eval hs v (fun n hn => hg n (by simp [getsS, hn]))] at hpv
-        split at he
-        · rename_i hx
-          cases g with
-          | none =>
-            obtain ⟨sF1, e1, hs1⟩ := ihb none s s' sF hokb (fun n hn => hg n (by simp [getsS, hn])) (fun n hn => hp n (by simp [putsS, hn])) he hs
-            exact ⟨sF1, by simp [p2p, execD, hpv, hx, e1], hs1⟩
-          | some ge =>
-            simp only at he
-            split at he
-            · rename_i gv hgv
-              rw [sh_eval hs ge (fun n hn => hg n (by simp [getsS, hn]))] at hgv
-              split at he
-              · rename_i hgt
-                obtain ⟨sF1, e1, hs1⟩ := ihb none s s' sF hokb (fun n hn => hg n (by simp [getsS, hn])) (fun n hn => hp n (by simp [putsS, hn])) he hs
-                exact ⟨sF1, by simp [p2p, execD, hpv, hx, hgv, hgt, e1], hs1⟩
-              · rename_i hgt
-                obtain ⟨sF1, e1, hs1⟩ := ihr (some x) s s' sF hokr (fun n hn => hg n (by simp [getsS, hn])) (fun n hn => hp n (by simp [putsS, hn])) he hs
-                exact ⟨sF1, by simp [p2p, execD, hpv, hx, hgv, hgt, e1], hs1⟩
-            · simp at he
-        · rename_i hx
-          obtain ⟨sF1, e1, hs1⟩ := ihr (some x) s s' sF hokr (fun n hn => hg n (by simp [getsS, hn])) (fun n hn => hp n (by simp [putsS, hn])) he hs
-          exact ⟨sF1, by simp [p2p, execD, hpv, hx, e1], hs1⟩
-  | dflt body ih =>
-    intro sv s s' sF hok hg hp he hs
-    rw [okSg] at hok
-    have he' : execD c none body s = some s' := by simpa [execD] using he
-    obtain ⟨sF1, e1, hs1⟩ := ih none s s' sF hok (fun n hn => hg n (by simpa [getsS] using hn)) (fun n hn => hp n (by simpa [putsS] using hn)) he' hs
-    exact ⟨sF1, by simp [p2p, execD, e1], hs1⟩
-
-end C02
-
-namespace C02
-open Tp
-
-/-- no wire that the body puts is read by it (the complement is the finding C02-read-after-put) -/
-def NoRAP (body : Stmt) : Prop := ∀ n, n ∈ getsS body → n ∉ putsS body
-
 theorem St_ext {a b : St} (h1 : a.loc = b.loc) (h2 : a.att = b.att) (h3 : a.wire = b.wire) (h4 : a.prep = b.prep) : a = b := by
   cases a; cases b; simp_all
 
-/-- ONE ACTIVATION of a translated `propagate()` body: executing the `always @(*)` body and then applying its non-blocking
-    updates leaves the Verilog store related to the Python object after `propagate()` (immediate puts). -/
+/-- ONE ACTIVATION of a translated `propagate()` body (`always @(*)`): blocking assignments to locals and to the output registers,
+    then (nothing queued) - the Verilog store stays related to the Python object after `propagate()`; `Wire.settleAll` of the
+    enclosing `Simulator.clk` is the identity here (no `prepare` in the fragment) and is part of `settle`. -/
 theorem comb_sound {σ : Type} {rd : σ → V.Rd} {wr : σ → V.Tgt → V.BV → σ} (L : Laws rd wr) (c : ClassD) (body : Stmt)
-    (hok : okSg false c body = true) (hrap : NoRAP body) (s s1 : St) (st : σ) (hC : CRel c rd s st)
+    (hok : okSg false c body = true) (s s1 : St) (st : σ) (hC : CRel c rd s st)
     (he : execD c none body { s with loc := fun _ => none } = some s1) :
-    CRel c rd s1
-      (applyQ wr (V.exec rd wr none (trS c body) ⟨st, []⟩).st (V.exec rd wr none (trS c body) ⟨st, []⟩).nba) := by
-  have hs0 : Sh s.wire (putsS body) ({ s with loc := fun _ => none } : St) ({ s with loc := fun _ => none } : St) :=
-    ⟨rfl, rfl, rfl, by simp [applyL, hC.noPrep], by simp [hC.noPrep], hC.noPrep⟩
-  obtain ⟨sF1, e1, hs1⟩ := p2p_exec c s.wire (putsS body) body none _ s1 _ hok hrap (fun n hn => hn) he hs0
-  have hc := cycle_soundB L c (p2p body) (okSg_p2p c body hok) s sF1 st hC e1
-  rw [trS_p2p] at hc
-  have : settle sF1 = s1 := by
-    rw [settle_eq]
-    apply St_ext
-    · exact hs1.loc
-    · exact hs1.att
-    · show _ = s1.wire
-      rw [hs1.cur, hs1.wire0]; rfl
-    · exact hs1.np.symm
-  rw [this] at hc
-  exact hc
+    CRel c rd (settle s1)
+      (applyQ wr (V.exec rd wr none (trS c body) ⟨st, []⟩).st (V.exec rd wr none (trS c body) ⟨st, []⟩).nba) :=
+  cycle_soundB L c false body hok s s1 st hC he
 
-/-- Python: drive the inputs, one `propagate()` inside the domain -/
-def runC (c : ClassD) : St → List (List (String × Int)) → Option St
-  | s, [] => some s
-  | s, asg :: rest => match execD c none c.body { driveIn c s asg with loc := fun _ => none } with
-      | some s1 => runC c s1 rest
-      | none => none
-
-/-- COMBINATIONAL BISIMULATION over whole input histories (every step: drive some inputs - possibly none -, one activation).
-    Universal over classes whose `propagate()` body is in the fragment (`okSg false`) and reads no wire it puts, over related
-    starting states, over stores satisfying the `Laws`: after every step the port values (and the integers holding the locals)
-    coincide.  Power-up of never-assigned outputs (latches) is the same caveat as for sequential blocks. -/
-theorem transpile_comb_sound {σ : Type} {rd : σ → V.Rd} {wr : σ → V.Tgt → V.BV → σ} (L : Laws rd wr) (c : ClassD)
-    (hok : okSg false c c.body = true) (hrap : NoRAP c.body) :
-    ∀ (h : List (List (String × Int))) (s s' : St) (st : σ), CRel c rd s st → runC c s h = some s' →
+/-- BISIMULATION OVER WHOLE INPUT HISTORIES, BOTH MODES (q = true: `clock()` / `always @(posedge clk)`, q = false: `propagate()` /
+    `always @(*)`): every step drives some inputs, runs the Python method inside the domain and settles; the translated body is
+    executed and its non-blocking updates applied.  Related states stay related after every step: same state variables, same value
+    on every port.  No read-after-put restriction any more. -/
+theorem transpile_sound_all {σ : Type} {rd : σ → V.Rd} {wr : σ → V.Tgt → V.BV → σ} (L : Laws rd wr) (c : ClassD) (q : Bool)
+    (hok : okSg q c c.body = true) :
+    ∀ (h : List (List (String × Int))) (s s' : St) (st : σ), CRel c rd s st → runD c s h = some s' →
       CRel c rd s' (vRun rd wr c st h) := by
   intro h
   induction h with
-  | nil => intro s s' st hC hr; simp only [runC, Option.some.injEq] at hr; subst hr; exact hC
+  | nil => intro s s' st hC hr; simp only [runD, Option.some.injEq] at hr; subst hr; exact hC
   | cons asg rest ih =>
     intro s s' st hC hr
-    simp only [runC] at hr
+    simp only [runD] at hr
     split at hr
     · rename_i s1 h1
-      have hC1 := comb_sound L c c.body hok hrap _ s1 _ (drive_crel L c asg s st hC) h1
+      simp only [clockCycleD, Option.map_eq_some_iff] at h1
+      obtain ⟨s0, he, hs0⟩ := h1
+      subst hs0
+      have hC1 := cycle_soundB L c q c.body hok _ s0 _ (drive_crel L c asg s st hC) he
       exact ih _ s' _ hC1 hr
     · simp at hr
 
